@@ -424,7 +424,8 @@ def run(ctx):
                                 "minimum": 1, "exclusiveMinimum": True} if d <= 4 else None)
             elif r < 0.5:
                 one(ctx, root, rng, n, "valid", vec, mode, base_uri=True,
-                    schema_obj={"properties": {"a": {"$ref": "sub/part.json#/definitions/x"}, "b": {"type": "string"},
+                    schema_obj={"definitions": {"n": {"type": "string"}},
+                                "properties": {"a": {"$ref": "sub/part.json#/definitions/x"}, "b": {"$ref": "#/definitions/n"},
                                                "c": {"maxLength": 1}}, "required": ["p", "q"]},
                     subprocess_too=(i % 37 == 0))
             elif r < 0.62:
